@@ -4,7 +4,8 @@ Oracle: specs/LoadBalance.tla (contract).  specs/LoadBalanceImpl.tla is the impl
 layer whose refinement of the contract TLC checks.  The real code is bound by
   * MBT: TLC -simulate behaviours of the contract (configuration, discovery reports, keyed requests,
          requests held between the load of the pool's balancer and the choice while the list is replaced,
-         round robin balancers that have served 2^b - d selections before) replayed through the real Proxy
+         round robin balancers that have served 2^b - d selections before, pools with a retry policy and
+         requests whose attempts fail at the backend - LoadBalanceRetry.tla) replayed through the real Proxy
          filter with the transport stubbed; the recorded observations are validated by TLC against the
          contract (LoadBalance_Trace);
   * TV : seeded random pools / request sequences (same ingredients), same validation;
@@ -22,6 +23,8 @@ PKG = "pkg/filters/proxy"
 
 INVS = "INVARIANTS TypeOK RRFair Member NilIffEmpty NoZeroWeight HeldOK\n"
 PROPS = INVS + "PROPERTIES Sticky StickyPick\n"
+# requests with several attempts (LoadBalanceRetry.tla)
+RETRY_PROPS = "INVARIANTS AttemptOK NoZeroWeightRetry\nPROPERTIES StickyRetry\n"
 
 
 # exhaustive runs: balancers that have served 2^b - d = 3, 7 selections before (small numbers: the model's counter is exact)
@@ -31,10 +34,11 @@ MC_AGE = "  AgeBits = {2, 3}\n  AgeD = {1}\n"
 NO_AGE = "  AgeBits = {}\n  AgeD = {}\n"
 
 
-def contract_cfg(configs, insts, procs, keys, maxsel, maxgen, spec="GSpec", age=NO_AGE):
+def contract_cfg(configs, insts, procs, keys, maxsel, maxgen, spec="GSpec", age=NO_AGE, retry=False):
     return ("SPECIFICATION %s\nCONSTANTS\n  Configs <- %s\n  InstSets <- %s\n  Procs = {%s}\n  Keys = {%s}\n"
-            "  MaxSel = %d\n  MaxGen = %d\n%sVIEW view\n" % (spec, configs, insts, _strs(procs), _strs(keys), maxsel, maxgen, age)
-            ) + PROPS + "PROPERTIES ReplaceRule\n"
+            "  MaxSel = %d\n  MaxGen = %d\n%sVIEW %s\n" % (spec, configs, insts, _strs(procs), _strs(keys), maxsel, maxgen, age,
+                                                        "rview" if retry else "view")
+            ) + PROPS + "PROPERTIES ReplaceRule\n" + (RETRY_PROPS + "INVARIANTS AttBound\n" if retry else "")
 
 
 def impl_cfg(configs, insts, procs, keys, maxsel, maxgen, atomic=True, fixed=True, hrange=2, ctrbits=0, age=NO_AGE):
@@ -57,6 +61,8 @@ SIM_CFG = ("SPECIFICATION GSeqSpec\nCONSTANTS\n  Configs <- GenConfigs\n  InstSe
 TRACE_CFG = ("SPECIFICATION TSpec\nCONSTANTS\n  Configs = {}\n  InstSets = {}\n"
              "  Procs = {\"g0\", \"g1\", \"g2\", \"g3\", \"g4\", \"g5\", \"g6\", \"g7\"}\n  Keys = {\"k0\", \"k1\", \"k2\", \"k3\"}\n"
              "  MaxSel = 100000000\n  MaxGen = 100000000\n  AgeBits = {}\n  AgeD = {}\nCONSTRAINT HWM\nPOSTCONDITION TraceAccepted\n") + PROPS
+# the sequential traces may contain requests with several attempts
+SEQ_TRACE_CFG = TRACE_CFG + RETRY_PROPS
 
 
 def run(ctx):
@@ -114,8 +120,14 @@ def _mc(ctx):
             label="contract, 2 callers, %d selections" % (3 if q else 5), timeout=1500, workers=w)
         # ... and for requests held between the load of the balancer and the choice, across replacements
         jobs["held"] = ex.submit(
-            ctx.tlc_mc, "LoadBalance_Gen", contract_cfg("McConfigs", "McInstSets", g2, ["k0", "k1"], 3, 2 if q else 3, spec="GSeqSpec"),
+            ctx.tlc_mc, "LoadBalance_Gen", contract_cfg("McConfigs", "McInstSets", g2, ["k0", "k1"], 3, 2 if q else 3, spec="GHeldSpec"),
             label="contract, held requests across replacements", timeout=1500, workers=w)
+        # ... and for requests with several attempts (pools with a retry policy), interleaved with replacements,
+        # other requests and held requests: every attempt a selection in the list current then, nil iff empty
+        jobs["retry"] = ex.submit(
+            ctx.tlc_mc, "LoadBalance_Gen", contract_cfg("McRetryConfigs", "McInstSets", g2, ["k0"] if q else ["k0", "k1"], 3, 2,
+                                                        spec="GSeqSpec", retry=True),
+            label="contract, requests with several attempts", timeout=1500, workers=w)
         # ... and for round robin balancers that have served selections before (the counts stay fair from there on)
         jobs["aged"] = ex.submit(
             ctx.tlc_mc, "LoadBalance_Gen", contract_cfg("McRRConfigs", "McInstSets", g2, ["k0"], 3 if q else 4, 2, age=MC_AGE),
@@ -140,6 +152,10 @@ def _mc(ctx):
                                       count=False, workers=2)
         jobs["neg-wrap"] = ex.submit(ctx.tlc_mc, "LoadBalanceImpl_MC", impl_cfg("RROnlyConfigs", "McInstSets", g2, ["k0"], 3, 2, ctrbits=3, age=MC_AGE),
                                      label="negative control: 3-bit round robin counter that wraps", expect_ok=False, count=False, workers=2)
+        jobs["neg-retry"] = ex.submit(
+            ctx.tlc_mc, "LoadBalance_Gen", contract_cfg("McRetryConfigs", "McInstSets", g2, ["k0"], 3, 2, spec="GBadRetrySpec", retry=True),
+            label="negative control: a retry that gives up when only the server that failed before is offered", expect_ok=False,
+            count=False, workers=2)
         res = {k: f.result() for k, f in jobs.items()}
     for k in sorted(res):
         if res[k].ok:
@@ -150,6 +166,9 @@ def _mc(ctx):
     r = res["neg-wrap"]
     if r.violated not in ("RRFair", "Refines"):
         ctx.inconclusive("negative control (round robin counter that wraps) was not rejected by TLC: %s" % r.error)
+    r = res["neg-retry"]
+    if r.violated != "AttemptOK":
+        ctx.inconclusive("negative control (retry that gives up for lack of an untried server) was not rejected by TLC: %s" % r.error)
     r = res["pinned-wr"]
     if r.violated not in ("NoPanic", "Refines"):
         ctx.inconclusive("negative control (weightedRandom without the zero-total-weight guard) was not rejected by TLC: %s" % r.error)
@@ -228,6 +247,15 @@ def _sig(seg, idx, kind):
         cur = zero[0] if zero else cands[-1]
     r = e.get("r")
     ids = {x["id"] for x in cur}
+    if e.get("ev") in ("send", "nosrv"):
+        # an attempt of a request with several attempts: which attempt, and whether the servers of the list had
+        # all been tried by the request before
+        obs = r if r in ("panic", "nil") else ("unexpected" if str(r).startswith("unexpected") else "member" if r in ids else "non-member")
+        tried = {x.get("r") for x in seg[:idx] if x.get("ev") == "send" and x.get("p") == e.get("p")
+                 and x.get("k") == e.get("k") and x.get("i", 0) <= e.get("i", 0)}
+        return {"kind": kind, "policy": seg[0]["cfg"]["policy"], "obs": obs, "n": min(len(cur), 3), "retry": True,
+                "attempt": min(e.get("i", 0) + (1 if e.get("ev") == "nosrv" else 0), 3), "att": min(seg[0]["cfg"].get("att", 1), 3),
+                "all_tried": bool(ids) and ids <= tried}
     aged = [x for x in seg[:idx] if x.get("ev") in ("age", "rep")]
     if aged and aged[-1]["ev"] == "age" and r in ids:
         return {"kind": kind, "policy": seg[0]["cfg"]["policy"], "obs": "member-unfair", "aged": aged[-1]["b"], "n": min(len(cur), 3)}
@@ -249,7 +277,7 @@ def _nontrivial(ctx, seg):
     if not big:
         return
     reps = sum(1 for e in seg if e.get("ev") in ("rep", "rinv"))
-    ch = [e for e in seg if e.get("ev") in ("ch", "inv")]
+    ch = [e for e in seg if e.get("ev") in ("ch", "inv", "send")]
     keys = [e.get("k") for e in ch]
     mix = any(any(x["w"] == 0 for x in e.get("insts", []) if x["t"]) and any(x["w"] > 0 for x in e.get("insts", []) if x["t"])
               for e in seg)
@@ -263,6 +291,7 @@ def _schedules(segs):
     held = crossed = 0
     for _st, seg in segs:
         for i, e in enumerate(seg):
+
             if e.get("ev") == "hpick":
                 h = max(j for j in range(i) if seg[j].get("ev") == "hold" and seg[j].get("p") == e.get("p"))
                 reps = [j for j in range(h, i) if seg[j].get("ev") == "rep"]
@@ -278,9 +307,38 @@ def _schedules(segs):
     return held, crossed
 
 
+def _prev_send(seg, i):
+    for j in range(i - 1, 0, -1):
+        if seg[j].get("ev") == "send" and seg[j].get("p") == seg[i].get("p"):
+            return j
+    return i
+
+
+def _retries(ev):
+    """how many attempts after the first the recorded traces contain, by the class of situation"""
+    rt = {"retried": 0, "one_server": 0, "hash": 0, "more_attempts_than_servers": 0, "replaced_between_attempts": 0, "no_server": 0}
+    for _st, seg in _segments(ev):
+        for i, e in enumerate(seg):
+            if e.get("ev") == "send" and e.get("i", 1) >= 2:
+                # a retry ... for which the balancer can only offer servers the request has tried before
+                cur = _lists(seg, i)
+                rt["retried"] += 1
+                if len(cur) == 1:
+                    rt["one_server"] += 1
+                elif seg[0]["cfg"]["policy"] in ("ipHash", "headerHash"):
+                    rt["hash"] += 1
+                elif e["i"] > len(cur) >= 2:
+                    rt["more_attempts_than_servers"] += 1
+                if any(x.get("ev") == "rep" for x in seg[_prev_send(seg, i):i]):
+                    rt["replaced_between_attempts"] += 1
+            if e.get("ev") == "nosrv":
+                rt["no_server"] += 1
+    return rt
+
+
 def _validate_seq(ctx, tp, ev, kind, what):
     """one TLC run over the concatenated sequential traces; the trace spec reports every rejected trace"""
-    tr = ctx.tlc_trace("LoadBalance_Trace", TRACE_CFG, tp)
+    tr = ctx.tlc_trace("LoadBalance_Trace", SEQ_TRACE_CFG, tp)
     segs = _segments(ev)
     rejected = sorted({int(x) for x in re.findall(r"VERIF_REJECT\W+(\d+)", tr.out)})
     if not tr.accepted:
@@ -300,6 +358,11 @@ def _validate_seq(ctx, tp, ev, kind, what):
         aged = [x for x in seg[:idx] if x.get("ev") in ("age", "rep")]
         after = (" (balancer that had served %s selections before)" % aged[-1]["k0"]) if aged and aged[-1]["ev"] == "age" else ""
         seen = ("tally %s of %d concurrent selections%s" % (jdump(e["picks"])[:400], e.get("n", 0), after) if e.get("ev") == "batch"
+                else "attempt %d of the request of %s (key %s; pool with a retry policy of %d attempts; the attempt before it was "
+                     "answered with a failure) was not sent: the request ended with 503 'no available server'"
+                     % (e.get("i", 0) + 1, e.get("p"), e.get("k"), seg[0]["cfg"].get("att", 1)) if e.get("ev") == "nosrv"
+                else "attempt %d of the request of %s (key %s) observed %r" % (e.get("i", 0), e.get("p"), e.get("k"), e.get("r"))
+                if e.get("ev") == "send"
                 else "request %s, held between the load of the balancer and its choice, observed %r" % (e.get("p"), e.get("r"))
                 if e.get("ev") == "hpick"
                 else "request with key %s observed %r%s" % (e.get("k"), e.get("r"), after))
@@ -329,9 +392,15 @@ def _check_rejected(ctx, ev, what):
 
 
 def _vacuity(ctx, ev, held, crossed, what):
-    ctx.cov.setdefault("c04_schedules", {})[what] = {"held_across_replacement": held, "aged_crossing_power_of_two": crossed}
+    rt = _retries(ev)
+    ctx.cov.setdefault("c04_schedules", {})[what] = {"held_across_replacement": held, "aged_crossing_power_of_two": crossed,
+                                                     "retries": rt}
+    ctx.log("%s: attempts after the first: %s" % (what, jdump(rt)))
     if ctx.violations:
         return
+    for cls in ("one_server", "hash", "more_attempts_than_servers", "replaced_between_attempts"):
+        if rt[cls] == 0:
+            ctx.inconclusive("%s: no request was retried in the situation '%s'" % (what, cls))
     if held == 0:
         ctx.inconclusive("%s: no request was held across a replacement of a non-empty list by a non-empty list" % what)
     if any(e.get("ev") == "noage" and e.get("why") == "nocounter" for e in ev):
